@@ -238,9 +238,9 @@ def _worker(args):
 
 def run_property(prop, tier='quick', only=None, jobs=None, sizes=None):
     load_contracts(prop)
-    names = [n for (p, n), s in HARNESSES.items() if p == prop and (tier == 'thorough' or s['tier'] == 'quick')]
+    names = [n for (p, n), s in HARNESSES.items() if p == prop and (s['tier'] == 'quick' or (tier == 'thorough' and s['tier'] == 'thorough'))]     # tier='open': kept in the file, run only with --only
     if only:
-        names = [n for n in names if any(o in n for o in only)]
+        names = [n for (p, n), s in HARNESSES.items() if p == prop and any(o in n for o in only) and (s['tier'] != 'thorough' or tier == 'thorough')]
     jobs = jobs or min(int(os.environ.get('PVC_JOBS', '16')), max(1, len(names)))
     args = [(prop, n, tier, sizes) for n in names]
     if jobs == 1 or len(args) <= 1:
